@@ -137,7 +137,7 @@ def call(f, s, a, s2):
 
 def triples(ctx):
     r = ctx.rng
-    n = 500 if ctx.tier == 'quick' else 5000
+    n = 1200 if ctx.tier == 'quick' else 6000
     F = gen.FLOOR
     g3 = tuple(tuple(F for _ in range(3)) for _ in range(3))
     KEY = (TY['Key'], 0, 4, None)
@@ -162,7 +162,26 @@ def triples(ctx):
             s = (g, p, o, held)
         a = r.randrange(8)
         kk = r.random()
-        if kk < 0.6:
+        if kk < 0.05:
+            # the agent on the top / left edge acting towards the outside, with walls, doors, an exit ... on the OPPOSITE rim: nothing beyond the
+            # edge is a wall to bump into, a door to open, an object to pick
+            edge = r.choice(['top', 'left'])
+            fill = lambda: r.choice([gen.WALL, gen.WALL, (TY['Door'], r.choice([1, 2]), 4, None), (TY['Key'], 0, 4, None), (TY['Exit'], 0, 0, None), (TY['MovingObstacle'], 0, 0, None)])  # noqa: E731
+            if edge == 'top':
+                p = (0, r.randrange(w))
+                g = tuple(tuple(fill() if y == h - 1 and h > 1 else c for c in row) for y, row in enumerate(g))
+                o, a = r.choice([(0, 0), (1, 1), (3, 2), (2, 3), (0, 6), (0, 7)])       # heading, action: the move / the front points up
+            else:
+                p = (r.randrange(h), 0)
+                g = tuple(tuple(fill() if x == w - 1 and w > 1 else c for x, c in enumerate(row)) for row in g)
+                o, a = r.choice([(2, 0), (3, 1), (0, 2), (1, 3), (2, 6), (2, 7)])
+            if g[p[0]][p[1]][0] in (TY['Wall'], TY['Box']):
+                g = gen.set_cell(g, p, F)
+            s = (g, p, o, held)
+            kind, val, _, _ = impl.run_transition([0, 1, 4, 2], s, a, True, seed=r.randrange(1 << 30))
+            s2 = val if kind == 'ok' else s
+            origin = 'edge-outward'
+        elif kk < 0.6:
             names = [r.randrange(7) for _ in range(r.randint(1, 4))]
             kind, val, _, _ = impl.run_transition(names, s, a, True, seed=r.randrange(1 << 30))
             s2 = val if kind == 'ok' else s
@@ -193,7 +212,7 @@ def triples(ctx):
             nb = [(p[0] + dy, p[1] + dx) for dy, dx in ((0, 0), (0, 0), (1, 0), (-1, 0), (0, 1), (0, -1)) if 0 <= p[0] + dy < h and 0 <= p[1] + dx < w]
             s2 = (g2, r.choice(nb), o, held)
             origin = 'layout-change'
-        elif kk < 0.89:
+        elif kk < 0.885:
             # a serpentine maze: walking distances far above height + width (no bound other than the number of cells is valid)
             mh, mw = r.choice([(7, 7), (7, 5), (9, 6)])
             rows = []
@@ -220,7 +239,7 @@ def triples(ctx):
             if end in (path[i], path[j]):
                 s2 = s
             origin = 'maze'
-        elif kk < 0.91:
+        elif kk < 0.915:
             # several exits, two or more of them in the beacon's colour: ANY exit of that colour is a good one
             bc = r.choice([1, 2, 3])
             g = tuple(tuple(F if c[0] in (TY['Exit'], TY['Beacon']) else c for c in row) for row in g)
@@ -238,7 +257,7 @@ def triples(ctx):
             else:
                 s2 = s
             origin = 'multi-exit'
-        elif kk < 0.93:
+        elif kk < 0.945:
             # the agent faces a door and actuates; in s' that door may have changed status, the agent's pose may have changed too (a
             # composition with teleport), and other doors stand around: the reward is about THE door that was in front in s
             dirs = {0: (-1, 0), 1: (1, 0), 2: (0, -1), 3: (0, 1)}
@@ -261,7 +280,7 @@ def triples(ctx):
             else:
                 s2 = s
             origin = 'door-change'
-        elif kk < 0.95:
+        elif kk < 0.96:
             # perturb one feature
             p2, o2 = gen.rand_pose(r, h, w)
             s2 = (g, p2, o, r.choice([held, KEY, gen.NONE]))
